@@ -347,6 +347,22 @@ def s5_pending_only_if_continues(ctx, rep):
         raise AnchorError(f"_update_searcher: {n} non-empty assignments of the pending levels (3 confirmed)")
 
 
+def s6b(ctx, rep):
+    """found thin by the generic mutation audit: the filtered list replaces the pending list whenever something was removed"""
+    from .common import require_guard
+    P = ctx.P
+    f = P.method("ModelStateTransformer", "filter_pending_evaluations")
+    cfg = cfg_of(f)
+    repl = [n.id for n in cfg.nodes if n.kind == "stmt" and (
+        (isinstance(n.ast, ast.Delete) and ".pending_evaluations" in U(n.ast)) or
+        (isinstance(n.ast, ast.Assign) and any(U(t).endswith(".pending_evaluations") for t in n.ast.targets)))]
+    if not repl:
+        raise AnchorError("filter_pending_evaluations: mutation of pending_evaluations not found")
+    require_guard(ctx, rep, "S6", f, "ModelStateTransformer.filter_pending_evaluations: the pending list is replaced | the filter removed something", repl,
+                  [("len(filtered) != len(pending)", lambda a: a[0] == "eq" and a[3] is False and "len(" in a[1] and "len(" in a[2])],
+                  "the filtered list is thrown away exactly when it differs: pending entries of failed / finished trials are never removed")
+
+
 def s5_pair(ctx, rep):
     """(reported_result, keep_case) is one piece of state - 'the last case given to the searcher and whether it has to
     stay': whoever writes one of them writes the other on the same paths.  A stale pair makes the next report remove a
@@ -537,6 +553,7 @@ def run(ctx, rep, tier="quick"):
     s5(ctx, rep)
     s5_pair(ctx, rep)
     s5_pending_only_if_continues(ctx, rep)
+    s6b(ctx, rep)
     s6(ctx, rep)
     s7(ctx, rep)
     s8(ctx, rep)
